@@ -366,9 +366,13 @@ fn btpe<R: Rng + ?Sized>(btpe: Btpe, flipped: bool, rng: &mut R) -> u64 {
         } else {
             -((m - y) as f64)
         };
+        // `f1 / x1 = 1 - (y - m) / x1` and `z / w = 1 + (y - m) / w`: for large `m`
+        // or `n - m` these ratios are so close to 1 that `ln` of the rounded
+        // quotient loses the information (the error is multiplied by `m` or
+        // `n - m` below), so use `ln_1p` of the exact difference instead.
         if alpha
-            > x_m * (f1 / x1).ln()
-                + (((n - m) as f64) + 0.5) * (z / w).ln()
+            > x_m * (-y_sub_m / x1).ln_1p()
+                + (((n - m) as f64) + 0.5) * (y_sub_m / w).ln_1p()
                 + y_sub_m * (w * btpe.p / (x1 * q)).ln()
                 // We use the signs from the GSL implementation, which are
                 // different than the ones in the reference. According to
